@@ -54,3 +54,114 @@ func TestKnown_C06_message_updated_into_recovery_mailbox(t *testing.T) {
 		}()
 	}
 }
+
+// kfDelSubClash: a mailbox whose remote id is still recorded in deleted_subscriptions under ANOTHER name (a client DELETE
+// keeps the subscription; the remote id came back through a late / repeated MailboxCreated) can no longer be deleted:
+// AddDeletedSubscription finds no row with the name and inserts one, which violates UNIQUE(remote_id).
+const kfDelSubClash = "C06-delete-recreated-mailbox-unique-subscription"
+
+// kfStaleRemoteID: applyMessageIDChanged changes the remote id only in snapshots that already hold the message; a
+// session whose EXISTS for the message is still unflushed keeps the old id and names the message by it in every later
+// connector call.
+const kfStaleRemoteID = "C06-message-id-change-misses-pending-exists"
+
+func TestKnown_C06_delete_recreated_mailbox_unique_subscription(t *testing.T) {
+	e := newEnv(t, caseCfg{twoSessions: true}, false)
+	defer e.close()
+
+	mk := func(kind string, fill func(d *desc)) *desc {
+		d := e.newDesc(kind)
+		fill(d)
+
+		return d
+	}
+
+	created := mk(kMailboxCreated, func(d *desc) { d.boxRID, d.name = "rb-1", "A" })
+	e.exec(step{op: "upd", d: created, times: 1})
+	e.exec(step{op: "upd", d: mk(kMailboxUpdated, func(d *desc) { d.boxRID, d.name = "rb-1", "B" }), times: 1})
+	e.exec(step{op: "cmd", c: &cmd{op: "delete", boxKey: e.m.boxByName("B").key, dstKey: -1, msgKey: -1}, echoTimes: 1})
+	e.exec(step{op: "dup", d: created, times: 1}) // the late duplicate re-creates rb-1 as "A"
+
+	if e.m.boxByName("A") == nil || !e.m.delSubClash(e.m.boxByName("A")) {
+		t.Fatalf("harness: scenario not built: %v", e.ops)
+	}
+
+	dl := e.send(imap.NewMailboxDeleted("rb-1"), "MailboxDeleted(rb-1)", "known")
+	if dl.Err == nil {
+		return // does not reproduce
+	}
+
+	names, _ := e.list()
+
+	if !kf.Report(kfDelSubClash) {
+		t.Fatalf("C06 violated (not listed as known): MailboxDeleted(rb-1) for the existing mailbox \"A\" is refused: %v; LIST still shows %q\nsequence:\n  %v\n%s", dl.Err, names, e.ops, e.b.Hist)
+	}
+}
+
+func TestKnown_C06_message_id_change_misses_pending_exists(t *testing.T) {
+	e := newEnv(t, caseCfg{twoSessions: true}, false)
+	defer e.close()
+
+	mk := func(kind string, fill func(d *desc)) *desc {
+		d := e.newDesc(kind)
+		fill(d)
+
+		return d
+	}
+
+	inbox := e.m.boxes[0]
+
+	e.exec(step{op: "upd", d: mk(kMailboxCreated, func(d *desc) { d.boxRID, d.name = "rb-1", "A" }), times: 1})
+	e.exec(step{op: "upd", d: mk(kMessagesCreated, func(d *desc) {
+		d.items = []item{{rid: "rm-1", marker: "c1", literal: machMsg("c1", "remote"), boxes: []imap.MailboxID{"rb-1"}}}
+	}), times: 1})
+
+	e.exec(step{op: "upd", d: mk(kMailboxCreated, func(d *desc) { d.boxRID, d.name = "rb-2", "B" }), times: 1})
+
+	// the acting session is selected in INBOX and idle; the observer watches A
+	e.actReady(inbox)
+	e.obsBox = e.m.boxByName("A")
+
+	// the message arrives in INBOX: its EXISTS is queued for the acting session and stays unflushed
+	e.exec(step{op: "upd", d: mk(kMessageMailboxes, func(d *desc) { d.msgRID, d.boxes = "rm-1", []imap.MailboxID{"rb-1", inbox.rid} }), times: 1})
+
+	// the remote id changes (delivered without the steering of deliver())
+	d := mk(kMessageIDChanged, func(d *desc) { d.msgKey, d.newMsgRID = 0, "rm-1-new" })
+	e.resolve(d)
+
+	v := e.judge(d)
+	if dl := e.send(e.build(d), d.String(), "known"); dl.Err != nil || v.apply == nil {
+		t.Fatalf("MessageIDChanged refused: %v (%+v)", dl.Err, v)
+	}
+
+	v.apply()
+	e.syncRemote()
+	e.compare(d.String(), false, nil)
+
+	// now the session learns of the message and copies it to B: the connector must be told about rm-1-new
+	e.barrier()
+	e.act.Do("NOOP")
+
+	x := e.m.msgs[0]
+	uid := inbox.entries[inbox.index(x)].uid
+
+	if r := e.act.Do("UID COPY " + itoa(int(uid)) + ` "B"`); !r.OK() {
+		t.Fatalf("COPY refused: %v", r)
+	}
+
+	told := false
+
+	e.u.Conn.Lock(func() {
+		if rm := e.u.Conn.Messages["rm-1-new"]; rm != nil {
+			told = rm.Boxes["rb-2"]
+		}
+	})
+
+	if told {
+		return // does not reproduce
+	}
+
+	if !kf.Report(kfStaleRemoteID) {
+		t.Fatalf("C06 violated (not listed as known): after MessageIDChanged(rm-1 -> rm-1-new) the session that had an unflushed EXISTS for the message calls the connector with the old id: %v\n%s", lastCalls(e.u.Conn, 4), e.b.Hist)
+	}
+}
